@@ -8,6 +8,9 @@
 pub(crate) mod accumulator;
 pub mod capture;
 mod generic;
+// verification-only, see the module docs
+#[cfg(metrique_verif_loom)]
+mod verif_atomic;
 pub mod lambda_reporter;
 pub mod metrics_histogram;
 mod reporter;
